@@ -61,7 +61,25 @@ FailsReg(e) ==
        \o Chk(Strip(e.rvalue) = Strip(e.value), "value did not round-trip through the registered codec")
        \o Chk(e.left = 0, "bytes left over")
 
+\* the library's own RegisterCodecs functions are registrations like any other (C20: the most recent registration
+\* wins): HLib = {t: time.Time, p: *time.Time, n: null.Int}. With the foreign codec registered last, both time
+\* occurrences go through it and schema generation emits its schema (long); after RegisterCodecs is called again
+\* the library's codec (RFC 3339 string, offset preserved) governs again and the foreign codec is not called.
+FailsRegLib(e) ==
+  IF e.outcome # "ok" THEN <<"using a library-registered type failed: " \o e.outcome \o " " \o e.detail>>
+  ELSE LET tk == IF e.expectCustom THEN "long" ELSE "string"
+           f == e.schema.c IN
+       Chk(e.schema.k = "record" /\ Len(f) = 3
+           /\ (LET Core(x) == IF x.k = "union" /\ Len(x.c) = 2 /\ x.c[1].k = "null" THEN x.c[2].k ELSE x.k IN
+               Core(f[1].c[1]) = tk /\ Core(f[2].c[1]) = tk /\ f[2].c[1].k = "union" /\ Core(f[3].c[1]) = "long"),
+           "generated schema does not carry the schema of the most recent registration for time.Time")
+       \o Chk(e.customWrites = (IF e.expectCustom THEN 2 ELSE 0) /\ e.customReads = e.customWrites,
+               "the codec of the most recent registration for time.Time was not the one used (a later RegisterCodecs call must win)")
+       \o Chk(e.left = 0, "bytes left over")
+       \o (IF e.expectCustom THEN <<>> ELSE Chk(e.rvalue = e.value, "value (instant, UTC offset, validity) did not round-trip through the library codecs"))
+
 Fails(e) == CASE e.op = "schema_parse" -> FailsParse(e)
+              [] e.op = "reg_lib" -> FailsRegLib(e)
               [] e.op = "reg_use" -> FailsReg(e)
               [] e.op = "schema_bad" -> FailsBad(e)
               [] e.op = "schemagen" -> FailsGen(e)
